@@ -66,6 +66,15 @@ CLAIMED = {
         design="7 C17", technique="Lean 4 proof (chunking independence of a framing function over all schedules) + generated except tuples + differential correspondence",
         note=NOTE_COMMON + "Partial: asyncio.StreamReader.readuntil, the OS and UTF-8 decoding (a parameter in the theorems, "
              "String.fromUTF8? in the driver) are modelled, not verified; lone surrogates in write are outside the model."),
+    "C09": dict(
+        text="Lean small-step model of the flush loop and buffered sends (steps = the atomic blocks between transport-write "
+             "suspension points, scheduler choices of any length); invariant Inv (J1-J6) proved for init and every step, lifted "
+             "by induction over all schedules; no_lost_update, writes_were_sent, written_at_most_as_often_as_sent for every "
+             "schedule followed by a final wake; lost_update_old keeps the negative result for the pre-repair loop. Tied to the "
+             "real Gateway under a gated transport: every interleaving of one wake with <= 3 sends and <= 2 parked commands, step by step.",
+        design="7 C09", technique="Lean 4 proof (inductive invariant of an interleaving semantics over all schedules) + differential correspondence under a schedule-controlled transport",
+        note=NOTE_COMMON + "Scope stated in the theorems: buffered sends to the sleeping woken node, one listener, writes succeed "
+             "(failures are C08). asyncio's cooperative scheduling (atomicity between awaits) is the modelling assumption."),
 }
 
 PENDING_REASON = "check not built yet in this round (model and theorems in progress); see DESIGN.md section 7"
